@@ -211,14 +211,49 @@ impl Sys {
     }
 }
 
-fn replay_seq(seq: &[Op]) -> (Sys, Option<(usize, &'static str, String)>) {
-    let mut s = Sys::new();
-    for (i, op) in seq.iter().enumerate() {
-        if let Some((sig, msg)) = s.step(*op) {
-            return (s, Some((i, sig, msg)));
+/// A panic raised by the channel itself during an operation (or while what is left of it is
+/// dropped) is a verdict about the channel, not a crash of the engine.
+struct Guarded(Option<Sys>);
+impl std::ops::Deref for Guarded {
+    type Target = Sys;
+    fn deref(&self) -> &Sys {
+        self.0.as_ref().unwrap()
+    }
+}
+impl Drop for Guarded {
+    fn drop(&mut self) {
+        if let Some(mut s) = self.0.take() {
+            // one handle at a time: a second panic while the first one unwinds would abort
+            let mut bad = false;
+            while let Some(tx) = s.senders.pop() {
+                bad |= mcutil::quiet_catch(move || drop(tx)).is_err();
+            }
+            if let Some(rx) = s.receiver.take() {
+                bad |= mcutil::quiet_catch(move || drop(rx)).is_err();
+            }
+            if bad {
+                PANIC_ON_DROP.with(|p| p.set(true));
+            }
         }
     }
-    (s, None)
+}
+thread_local! {
+    static PANIC_ON_DROP: std::cell::Cell<bool> = const { std::cell::Cell::new(false) };
+}
+
+fn replay_seq(seq: &[Op]) -> (Guarded, Option<(usize, &'static str, String)>) {
+    let mut s = Sys::new();
+    for (i, op) in seq.iter().enumerate() {
+        match mcutil::quiet_catch(|| s.step(*op)) {
+            Ok(Some((sig, msg))) => return (Guarded(Some(s)), Some((i, sig, msg))),
+            Ok(None) => {}
+            Err(p) => {
+                std::mem::forget(s);
+                return (Guarded(Some(Sys::new())), Some((i, "panic", format!("operation {:?} panicked inside the channel: {}", op, mcutil::panic_message(&*p)))));
+            }
+        }
+    }
+    (Guarded(Some(s)), None)
 }
 
 struct Stats {
@@ -230,6 +265,9 @@ struct Stats {
 }
 
 fn dfs(seq: &mut Vec<Op>, depth: usize, max_senders: usize, st: &mut Stats) {
+    if PANIC_ON_DROP.with(|p| p.replace(false)) {
+        st.vios.add("panic-on-drop", || Violation { signature: "panic-on-drop".to_string(), summary: "dropping the remaining senders / the receiver of an explored history panicked inside the channel".into(), replay: json!({"ops": seq.iter().map(op_json).collect::<Vec<_>>(), "note": "a history explored just before this one"}) });
+    }
     let (sys, bad) = replay_seq(seq);
     st.seqs += 1;
     if let Some((i, sig, msg)) = bad {
